@@ -460,4 +460,147 @@ theorem krun_noraise (r : Bytes → Bool) (s : KState) (dl : List CFrame)
       rw [msgLoop_noraise r (absorb s f).buf (fun m hm => h m (List.mem_append_left _ hm))]
     rw [hk, ih _ (fun m hm => h m (List.mem_append_right _ hm))]
 
+/-! ### the eight spaces -/
+
+theorem State.ext' (a b : State) (h : ∀ k, a.ks k = b.ks k) : a = b := by
+  cases a; cases b; simp only [State.mk.injEq]; funext k; exact h k
+
+/-- the buffer holds no whole message the loop would hand on (and none it would raise on) -/
+def Drained (r : Bytes → Bool) (b : Bytes) : Prop := msgLoop r b = ([], b, false)
+
+theorem drained_nil (r : Bytes → Bool) : Drained r [] := msgLoop_short r [] (by simp)
+
+/-- the loop by structural recursion on a fuel (for evaluating concrete witnesses with `decide`) -/
+def msgLoopF (raises : Bytes → Bool) : Nat → Bytes → List Bytes × Bytes × Bool
+  | 0, b => ([], b, false)
+  | fuel + 1, b =>
+    if b.length ≤ 4 then ([], b, false)
+    else
+      let n := Bytes.beNat (Bytes.slice b 1 4)
+      if b.length < 4 + n then ([], b, false)
+      else
+        let m := b.take (4 + n)
+        if raises m then ([m], b, true)
+        else
+          let r := msgLoopF raises fuel (b.drop (4 + n))
+          (m :: r.1, r.2.1, r.2.2)
+
+theorem msgLoop_eq_fuel (r : Bytes → Bool) (fuel : Nat) (b : Bytes) (h : b.length ≤ fuel) :
+    msgLoop r b = msgLoopF r fuel b := by
+  induction fuel generalizing b with
+  | zero => rw [msgLoop_short r b (by omega)]; rfl
+  | succ fuel ih =>
+    rw [msgLoop, msgLoopF]
+    split
+    · rfl
+    · simp only
+      split
+      · rfl
+      · split
+        · rfl
+        · rw [ih _ (by simp only [List.length_drop]; omega)]
+
+theorem msgLoop_eq_len (r : Bytes → Bool) (b : Bytes) : msgLoop r b = msgLoopF r b.length b :=
+  msgLoop_eq_fuel r b.length b (Nat.le_refl _)
+
+/-- when the loop ended without an exception, what it left holds no further whole message -/
+theorem msgLoop_idem (r : Bytes → Bool) (b : Bytes) (h : (msgLoop r b).2.2 = false) :
+    Drained r (msgLoop r b).2.1 := by
+  unfold Drained
+  fun_induction msgLoop r b with
+  | case1 b h1 => exact msgLoop_short r b h1
+  | case2 b h1 n h2 =>
+    show msgLoop r b = _
+    rw [msgLoop]; simp only [h1, if_false]; rw [if_pos h2]
+  | case3 b h1 n h2 m hr => simp at h
+  | case4 b h1 n h2 m hr q ih => exact ih h
+
+theorem set_same (st : State) (k : Key) : st.set k { st.ks k with buf := (st.ks k).buf } = st := by
+  apply State.ext'; intro k'; simp only [State.set]; split <;> simp_all
+
+theorem go_drained (r : Bytes → Bool) (srv : Bool) (pts : List PT) (st : State)
+    (h : ∀ p ∈ pts, Drained r (st.ks (srv, p)).buf) : handleBufferGo r srv pts st = (st, [], false) := by
+  induction pts generalizing st with
+  | nil => rfl
+  | cons p ps ih =>
+    simp only [handleBufferGo]
+    have hp : msgLoop r (st.ks (srv, p)).buf = ([], (st.ks (srv, p)).buf, false) := h p List.mem_cons_self
+    simp only [hp, set_same, Bool.false_eq_true, if_false, List.nil_append]
+    rw [ih st (fun q hq => h q (List.mem_cons_of_mem _ hq))]
+
+theorem go_cons_drained (r : Bytes → Bool) (srv : Bool) (p : PT) (pts : List PT) (st : State)
+    (h : Drained r (st.ks (srv, p)).buf) : handleBufferGo r srv (p :: pts) st = handleBufferGo r srv pts st := by
+  have hp : msgLoop r (st.ks (srv, p)).buf = ([], (st.ks (srv, p)).buf, false) := h
+  simp only [handleBufferGo, hp, set_same, Bool.false_eq_true, if_false, List.nil_append]
+
+theorem go_cons_hit (r : Bytes → Bool) (srv : Bool) (p : PT) (pts : List PT) (st : State)
+    (hp : p ∉ pts) (h : ∀ q ∈ pts, Drained r (st.ks (srv, q)).buf) :
+    handleBufferGo r srv (p :: pts) st =
+      (st.set (srv, p) { st.ks (srv, p) with buf := (msgLoop r (st.ks (srv, p)).buf).2.1 },
+        (msgLoop r (st.ks (srv, p)).buf).1, (msgLoop r (st.ks (srv, p)).buf).2.2) := by
+  simp only [handleBufferGo]
+  split
+  · rename_i hr; simp [hr]
+  · rename_i hr
+    rw [go_drained r srv pts _ (by
+      intro q hq
+      have hne : (srv, q) ≠ (srv, p) := by intro he; injection he with _ he; subst he; exact hp hq
+      simp only [State.set, if_neg hne]
+      exact h q hq)]
+    simp only [List.append_nil]
+    simp at hr
+    rw [hr]
+
+/-- `update_session` seen from the frame's own space: when no *other* buffer of that direction holds a whole
+    message, the call is `kstep` on the own space and touches nothing else -/
+theorem update_own_space (r : Bytes → Bool) (st : State) (k : Key) (f : CFrame)
+    (hd : ∀ pt, (k.1, pt) ≠ k → Drained r (st.ks (k.1, pt)).buf) :
+    update r st k f = (st.set k (kstep r (st.ks k) f).1, (kstep r (st.ks k) f).2.1, (kstep r (st.ks k) f).2.2) := by
+  obtain ⟨srv, pt⟩ := k
+  have hd' : ∀ q, q ≠ pt → Drained r ((st.set (srv, pt) (absorb (st.ks (srv, pt)) f)).ks (srv, q)).buf := by
+    intro q hq
+    have hne : (srv, q) ≠ (srv, pt) := by intro he; injection he with _ he; exact hq he
+    simp only [State.set, if_neg hne]
+    exact hd q hne
+  have hset : ∀ v w : KState, ((st.set (srv, pt) v).set (srv, pt) w) = st.set (srv, pt) w := by
+    intro v w; apply State.ext'; intro k'; simp only [State.set]; split <;> rfl
+  have hget : ∀ v : KState, (st.set (srv, pt) v).ks (srv, pt) = v := by intro v; simp [State.set]
+  simp only [update, handleBuffer, kstep]
+  cases pt
+  · rw [go_cons_hit r srv _ _ _ (by decide) (fun q hq => hd' q (by intro h; subst h; simp at hq))]
+    simp only [hget, hset]
+  · rw [go_cons_drained r srv _ _ _ (hd' _ (by decide)),
+      go_cons_hit r srv _ _ _ (by decide) (fun q hq => hd' q (by intro h; subst h; simp at hq))]
+    simp only [hget, hset]
+  · rw [go_cons_drained r srv _ _ _ (hd' _ (by decide)), go_cons_drained r srv _ _ _ (hd' _ (by decide)),
+      go_cons_hit r srv _ _ _ (by decide) (fun q hq => hd' q (by intro h; subst h; simp at hq))]
+    simp only [hget, hset]
+  · rw [go_cons_drained r srv _ _ _ (hd' _ (by decide)), go_cons_drained r srv _ _ _ (hd' _ (by decide)),
+      go_cons_drained r srv _ _ _ (hd' _ (by decide)),
+      go_cons_hit r srv _ _ _ (by decide) (fun q hq => hd' q (by intro h; subst h; simp at hq))]
+    simp only [hget, hset]
+
+/-- a history of frames of one space, the other spaces of that direction drained -/
+theorem run_single (r : Bytes → Bool) (k : Key) (dl : List CFrame) (st : State)
+    (hd : ∀ pt, (k.1, pt) ≠ k → Drained r (st.ks (k.1, pt)).buf) :
+    run r st (dl.map (fun f => (k, f))) = (st.set k (krun r (st.ks k) dl).1, (krun r (st.ks k) dl).2) := by
+  induction dl generalizing st with
+  | nil =>
+    simp only [List.map_nil, run, krun]
+    congr 1
+    apply State.ext'; intro k'; simp only [State.set]; split <;> simp_all
+  | cons f fs ih =>
+    simp only [List.map_cons, run, krun]
+    rw [update_own_space r st k f hd]
+    simp only
+    have hd2 : ∀ pt, (k.1, pt) ≠ k → Drained r ((st.set k (kstep r (st.ks k) f).1).ks (k.1, pt)).buf := by
+      intro pt hne
+      simp only [State.set, if_neg hne]
+      exact hd pt hne
+    rw [ih _ hd2]
+    have hget : (st.set k (kstep r (st.ks k) f).1).ks k = (kstep r (st.ks k) f).1 := by simp [State.set]
+    rw [hget]
+    congr 1
+    apply State.ext'; intro k'; simp only [State.set]; split <;> rfl
+
 end TLX.Lemmas.CryptoStream
